@@ -1,8 +1,8 @@
 (* ConcatRun.v — case interpreter of the concat area (C13/C14: `pna concat`, `pna split` + `pna concat`).
    Formats mirror props/_concat.py.
-     concat <inputs>       inputs = input;input;...  ("" = no argument at all), each input the part chain of one
+     concat <inputs>       inputs = input;input;...  ("0" = no argument at all), each input the part chain of one
                            command-line argument = hex,hex,... in the order the files are found by name;
-                           "-" = the argument's first file does not exist
+                           ("" = one empty file); "-" = the argument's first file does not exist
                        ->  OK <hex of the output file>
                          | ERR <kind> <hex of the file left behind | "-" when none was created>
                          | PANIC
@@ -18,10 +18,7 @@ Definition dash : bytes := lit "-".
 Definition parse_input (b : bytes) : option (list bytes) :=
   if bytes_eqb b dash then Some [] else all_some (map unhex (fields comma b)).
 Definition parse_inputs (b : bytes) : option (list (list bytes)) :=
-  match b with
-  | [] => Some []
-  | _ => all_some (map parse_input (fields semi b))
-  end.
+  if bytes_eqb b (lit "0") then Some [] else all_some (map parse_input (fields semi b)).
 
 Definition show_run (r : option bytes * fin) : bytes :=
   let left := match fst r with Some f => hex f | None => dash end in
